@@ -67,7 +67,13 @@ def run(ctx):
     cfgs = [(3, 2, 150, 150), (4, 3, 60, 100), (2, 1, 40, 40), (5, 2, 0, 60)] if quick else \
            [(3, 2, 600, 400), (4, 3, 300, 300), (2, 1, 100, 100), (5, 2, 150, 200), (4, 1, 100, 100), (6, 3, 50, 100)]
     n3, _ = gate_common.gate_replay(ctx, cfgs, cancel_every=4 if quick else 2)
-    ctx.count(0, [("run", i) for i in range(nruns + n2 + n3)])
+    # the number of builders is the command's choice (processors, rate): with one processor and with a rate below one packet per second
+    # the real binary still writes one frame per request before it signals completion
+    from checks import wire_tier as wt
+    names = ("arp-subpps-rate", "arp-one-cpu", "tcp-one-cpu")
+    n4, rej = wt.run_wire(ctx, select=lambda sc: sc["name"] in names, label="c07w", focus="coverage")
+    wt.report(ctx, "C07", rej)
+    ctx.count(0, [("run", i) for i in range(nruns + n2 + n3 + n4)])
     for r0 in vf.split_runs(vf.read_ndjson(trace))[:2]:
         ctx.sample(r0[:60])
     ctx.assumptions += ["sync.Pool is a finite free set without GC in the model",
